@@ -260,6 +260,9 @@ func runC14(res *report.Result) {
 	h := &c14{res: res}
 	envs, vals := cat.Envelopes(), cat.Values()
 	checkCatalogue(res, envs)
+	if res.Thorough() {
+		envs = append(envs, cat.ExtraEnvelopes()...)
+	}
 	for i := range envs {
 		h.checkEnvelope(envs, i)
 		res.Seen("message_types", envs[i].Msg)
